@@ -267,8 +267,11 @@ func (p *Packer) packWalkFn(root, src, dst string, tarW *tar.Writer, meta *Meta,
 				return fmt.Errorf("failed to read symlink %q: %w", path, err)
 			}
 
-			// Check if the symlink's target falls within the root.
-			if ok, err := p.validSymlink(root, path, target); ok {
+			// Check if the symlink's target falls within the root. The link is
+			// judged where it will be in the slug, which inside a dereferenced
+			// directory is not where it is on disk: a target that is in-tree
+			// from its location on disk may still climb out of the slug.
+			if ok, err := p.validSymlink(root, strings.Replace(path, src, dst, 1), target); ok {
 				// We can simply copy the link.
 				header.Typeflag = tar.TypeSymlink
 				header.Linkname = filepath.ToSlash(target)
